@@ -45,3 +45,55 @@ pub mod trusted_axioms {
 }
 
 broadcast use trusted_axioms::axiom_str_len_fits;
+
+/// stand-in for std::io::Read + byteorder::ReadBytesExt over an abstract byte source `rest()`.
+/// `eof_only()`: the source fails only when it runs out of data (no transient I/O errors).
+pub trait Read {
+    spec fn rest(&self) -> Seq<u8>;
+    spec fn eof_only(&self) -> bool;
+
+    /// byteorder::ReadBytesExt::read_u8 == read_exact into a 1-byte buffer
+    fn read_u8(&mut self) -> (r: std::io::Result<u8>)
+        ensures
+            final(self).eof_only() == old(self).eof_only(),
+            match r {
+                Ok(b) => old(self).rest().len() >= 1 && b == old(self).rest()[0]
+                    && final(self).rest() == old(self).rest().subrange(1, old(self).rest().len() as int),
+                Err(_) => old(self).eof_only() ==> old(self).rest().len() == 0,
+            };
+
+    /// std::io::Read::read_exact: fills buf completely or fails
+    fn read_exact(&mut self, buf: &mut [u8]) -> (r: std::io::Result<()>)
+        ensures
+            final(self).eof_only() == old(self).eof_only(),
+            final(buf)@.len() == old(buf)@.len(),
+            match r {
+                Ok(_) => old(self).rest().len() >= old(buf)@.len() && final(buf)@ == old(self).rest().subrange(0, old(buf)@.len() as int)
+                    && final(self).rest() == old(self).rest().subrange(old(buf)@.len() as int, old(self).rest().len() as int),
+                Err(_) => old(self).eof_only() ==> old(self).rest().len() < old(buf)@.len(),
+            };
+}
+
+// ---- A4 / A6: std string functions without vstd specification --------------------------------
+#[verifier::external_type_specification]
+#[verifier::external_body]
+pub struct ExUtf8Error(std::str::Utf8Error);
+
+/// std::str::from_utf8 succeeds exactly on valid UTF-8 and then yields those very bytes
+pub assume_specification [std::str::from_utf8] (b: &[u8]) -> (r: std::result::Result<&str, std::str::Utf8Error>)
+    ensures
+        r.is_ok() == valid_utf8(b@),
+        r.is_ok() ==> r.unwrap().spec_bytes() == b@;
+
+/// String::insert_str(0, s) on an empty string makes it equal to s (only this use occurs)
+pub assume_specification [std::string::String::insert_str] (s: &mut std::string::String, idx: usize, t: &str)
+    requires
+        idx == 0,
+        old(s)@.len() == 0,
+    ensures
+        final(s)@ == t@;
+
+/// `String == str` compares the character sequences
+pub assume_specification [<String as PartialEq<str>>::eq] (a: &String, b: &str) -> (r: bool)
+    ensures
+        r == (a@ == b@);
